@@ -32,7 +32,7 @@ EXTRA_TARGETS = ("Gen/SchedSasa.vo", "Gen/SchedKernels.vo")
 EXTS = ["_geometry", "_rmsd", "drid", "neighbors", "neighborlist"]
 RULE = ("(environment, trajectory, analysis) triples: environment = OMP_NUM_THREADS in {1,2,3,5,8,16,frames+3} x OMP_SCHEDULE in "
         "{static,dynamic,guided} x OMP_DYNAMIC in {unset,true}, one process each; trajectory = frames of tests/data/2EQQ.pdb or "
-        "seeded random coordinates (no cell, constant rectangular cell, or a cell whose kind O/T and size change per frame); analysis = one of the per-frame functions; for each triple the whole "
+        "seeded random coordinates (no cell, constant rectangular cell, a cell whose kind O/T and size change per frame, a sheared cell with one component changing per frame, a 1500+ atom system for the numpy/BLAS analyses); analysis = one of the per-frame functions; for each triple the whole "
         "trajectory, every frame alone, a permuted trajectory and a repeated call are hashed per frame and compared for "
         "equality; non-trivial = trajectory has >= 2 frames and more frames than one thread's share for some thread "
         "(threads < frames) or a permutation that moves the frame; distinct by hash of the triple")
@@ -53,9 +53,18 @@ ANALYSES = ["distances", "displacements", "angles", "dihedrals", "distances_pbc"
             "wernet_nilsson", "baker_hubbard_1", "baker_hubbard_union",
             # periodic paths (run on every trajectory that has a cell; the cell-mix trajectories run only these)
             "displacements_pbc", "distances_pbc_noopt", "density", "contacts_pbc", "wernet_nilsson_pbc",
-            "baker_hubbard_pbc", "baker_hubbard_union_pbc"]
+            "baker_hubbard_pbc", "baker_hubbard_union_pbc", "displacements_pbc_noopt", "angles_pbc_noopt", "dihedrals_pbc_noopt",
+            # optional-argument variants
+            "rg_masses", "center_of_geometry", "gyration_tensor", "principal_moments", "asphericity", "distances_noopt",
+            "displacements_noopt", "angles_noopt", "dihedrals_noopt", "rmsd_ref_subset", "rmsd_precentered", "sasa_atom_sel",
+            "sasa_residue_sel", "drid_all", "neighbors_haystack", "contacts_ca", "contacts_heavy_softmin"]
+# numpy / BLAS based analyses: run on the large system, where blocking and BLAS threading could show
+NUMERIC = ["rg", "rg_masses", "center_of_mass", "center_of_geometry", "inertia_tensor", "gyration_tensor", "principal_moments",
+           "asphericity", "distances", "distances_noopt", "displacements_noopt", "angles_noopt", "rmsd", "rmsd_subset", "superpose",
+           "density", "distances_pbc", "distances_pbc_noopt"]
 PERIODIC = ["distances_pbc", "displacements_pbc", "distances_pbc_noopt", "angles_pbc", "dihedrals_pbc", "neighbors",
-            "neighborlist", "contacts_pbc", "wernet_nilsson_pbc", "baker_hubbard_pbc", "baker_hubbard_union_pbc", "density"]
+            "neighborlist", "contacts_pbc", "wernet_nilsson_pbc", "baker_hubbard_pbc", "baker_hubbard_union_pbc", "density",
+            "displacements_pbc_noopt", "angles_pbc_noopt", "dihedrals_pbc_noopt", "neighbors_haystack"]
 # per-frame cell KIND patterns (O rectangular, T sheared), cycled over the frames: a shortcut that decides the
 # kernel, a buffer size or a grid once per call from frame 0 (or from "all frames") shows up as a frame whose value
 # changes with its company
@@ -348,9 +357,18 @@ def trajs_for(ctx):
                 "seed": rng.randrange(10 ** 6), "cell": first_o, "cell_seed": rng.randrange(10 ** 6), "only": PERIODIC})
     out.append({"id": "cellmix-" + first_t, "kind": "random", "n_atoms": rng.choice([28, 44]), "n_frames": rng.choice([5, 6, 7]),
                 "seed": rng.randrange(10 ** 6), "cell": first_t, "cell_seed": rng.randrange(10 ** 6), "only": PERIODIC})
+    for tr in out[-2:]:
+        tr["env_every"] = 3 if quick else 1
+    # a sheared cell in which one single component of the box matrix changes from frame to frame, all others fixed
+    out.append({"id": "cellseries", "kind": "random", "n_atoms": rng.choice([30, 42]), "n_frames": 8 if quick else 14,
+                "seed": rng.randrange(10 ** 6), "cell_series": "one-component", "cell_seed": rng.randrange(10 ** 6),
+                "only": PERIODIC, "env_every": 3 if quick else 1})
+    # a large system for the numpy / BLAS based analyses (blocking and BLAS threading depend on the batch size)
+    out.append({"id": "large", "kind": "random", "n_atoms": 1500 if quick else 3200, "n_frames": 9 if quick else 220,
+                "seed": rng.randrange(10 ** 6), "box": True, "only": NUMERIC, "env_every": 3 if quick else 4})
     pf = sorted(rng.sample(range(20), 5))
     out.append({"id": "2EQQ-cellmix", "kind": "file", "path": pdb, "frames": pf, "cell": rng.choice(["OTTOT", "OOTTO"]),
-                "cell_seed": rng.randrange(10 ** 6), "cell_size": [2.6, 3.6], "only": PERIODIC})
+                "cell_seed": rng.randrange(10 ** 6), "cell_size": [2.6, 3.6], "only": PERIODIC, "env_every": 3 if quick else 1})
     if not quick:
         for p in pats:
             if p not in (first_o, first_t):
@@ -400,6 +418,8 @@ def env_name(e):
 def run_env(ctx, env, trajs, analyses, repeats, perm_seed, timeout=900):
     e = dict(env)
     e["OMP_WAIT_POLICY"] = "passive"       # do not spin on an oversubscribed machine (does not affect results)
+    for k in ("OPENBLAS_NUM_THREADS", "MKL_NUM_THREADS", "NUMEXPR_NUM_THREADS"):
+        e[k] = env["OMP_NUM_THREADS"]       # numpy's BLAS follows the same thread count
     return ctx.run_impl("sched_impl.py", {"trajs": trajs, "analyses": analyses, "perm_seed": perm_seed, "repeats": repeats},
                         env=e, timeout=timeout)["results"]
 
@@ -413,12 +433,35 @@ def sweep(ctx, trajs, envs, analyses, repeats, perm_seed):
     stats = {"triples": 0, "hash_comparisons": 0}
     dead = set()           # analyses that killed / hung the interpreter: reported once, then left out
     all_trajs = trajs
+    # the environments are independent processes: run two at a time, evaluate in order
+    from concurrent.futures import ThreadPoolExecutor
+
+    def trajs_of(ei):
+        # the special-purpose trajectories go through every k-th environment (always through the first)
+        return [t for t in all_trajs if len(envs) <= 2 or ei % t.get("env_every", 1) == 0]
+
+    def first_try(ei):
+        try:
+            return run_env(ctx, envs[ei], trajs_of(ei), list(analyses), repeats, perm_seed, timeout=300 if ctx.tier == "quick" else 900)
+        except (RuntimeError, subprocess.TimeoutExpired) as e:
+            return e
+    with ThreadPoolExecutor(max_workers=2) as pool:
+        firsts = list(pool.map(first_try, range(len(envs))))
     for ei, env in enumerate(envs):
         live = [a for a in analyses if a not in dead]
-        # quick tier: the cell-mix trajectories (periodic analyses only) go through every second environment
-        trajs = [t for t in all_trajs if not (ctx.tier == "quick" and t.get("only") and ei % 2 == 1 and len(envs) > 2)]
+        trajs = trajs_of(ei)
         try:
-            res = run_env(ctx, env, trajs, live, repeats, perm_seed, timeout=300 if ctx.tier == "quick" else 900)
+            if isinstance(firsts[ei], Exception):
+                if dead:       # an analysis already known to crash was still in the first attempt: retry without it
+                    res = run_env(ctx, env, trajs, live, repeats, perm_seed, timeout=300 if ctx.tier == "quick" else 900)
+                else:
+                    raise firsts[ei]
+            else:
+                res = firsts[ei]
+                for tid in res:
+                    for a in list(res[tid]):
+                        if a in dead:
+                            del res[tid][a]
         except (RuntimeError, subprocess.TimeoutExpired) as e:
             # the interpreter died or hangs (abort/segfault/deadlock inside a kernel): find the analysis and report it
             res = {}
